@@ -283,6 +283,35 @@ func init() {
 		}
 		return res
 	})
+	// a sequence of Encode calls whose returned slices are all kept and read (and decoded) only after the
+	// last call: an encoding must not be changed by later calls
+	RegOp("mercury.onchain.batch", func(in J) any {
+		in = normalise(in).(map[string]any)
+		type kept struct {
+			b   []byte
+			err error
+		}
+		var ks []kept
+		for _, c := range jArr(in["configs"]) {
+			b, err := mercury.StandardOnchainConfigCodec{}.Encode(context.Background(), mercurytypes.OnchainConfig{Min: jBig(jget(c, "min")), Max: jBig(jget(c, "max"))})
+			ks = append(ks, kept{b, err})
+		}
+		outs := make([]any, len(ks))
+		for i, k := range ks {
+			if k.err != nil {
+				outs[i] = cdcConfigErr(k.err)
+				continue
+			}
+			r := resOK(hexs(k.b))
+			if d, derr := (mercury.StandardOnchainConfigCodec{}).Decode(context.Background(), k.b); derr == nil {
+				r["_rt"] = J{"min": S(d.Min), "max": S(d.Max)}
+			} else {
+				r["_rt_err"] = derr.Error()
+			}
+			outs[i] = r
+		}
+		return resOK(outs)
+	})
 	RegOp("mercury.onchain.decode", func(in J) any {
 		in = normalise(in).(map[string]any)
 		c, err := mercury.StandardOnchainConfigCodec{}.Decode(context.Background(), jBytes(in["bytes"]))
@@ -596,6 +625,19 @@ func genC16(g *G) {
 	for i := 0; i < g.N(100, 2000); i++ {
 		g.EmitImpl(J{"op": "offchain.decode", "raw": hexs(cdcRndBytes(g, 14))}, "offchain-raw")
 	}
+	// ---- Mercury on-chain config: sequences of encodes, results retained
+	for i := 0; i < g.N(40, 600); i++ {
+		cfgs := []any{}
+		for k := 2 + g.R.Intn(5); k > 0; k-- {
+			lo := new(big.Int).Rand(g.R, new(big.Int).Lsh(big.NewInt(1), uint(1+g.R.Intn(190))))
+			hi := new(big.Int).Add(lo, new(big.Int).Rand(g.R, new(big.Int).Lsh(big.NewInt(1), uint(1+g.R.Intn(189)))))
+			if g.R.Intn(3) == 0 {
+				lo.Neg(lo)
+			}
+			cfgs = append(cfgs, J{"min": lo.String(), "max": hi.String()})
+		}
+		g.Emit(J{"op": "mercury.onchain.batch", "configs": cfgs}, "mercury-onchain-batch")
+	}
 	// ---- LLO on-chain config
 	zero := make([]byte, 32)
 	for _, ver := range []int{0, 1, 2, 255} {
@@ -826,6 +868,20 @@ func monC16(op J, res any) (viol []Violation, nontrivial bool) {
 		valid := len(b) == 64 && cdcFromWord(b[:32]).Cmp(big.NewInt(1)) == 0
 		if ok != valid {
 			bad("llo-onchain-decode-rejects", fmt.Sprintf("length %d: valid=%v but decode ok=%v", len(b), valid, ok))
+		}
+	case "mercury.onchain.batch":
+		outs := jArr(r["ok"])
+		for i, c := range jArr(op["configs"]) {
+			if i >= len(outs) {
+				break
+			}
+			sub := J{"op": "mercury.onchain.encode", "min": jget(c, "min"), "max": jget(c, "max")}
+			vs, _ := monC16(sub, outs[i])
+			for _, x := range vs {
+				x.Op, x.Res = op, res
+				x.Desc = fmt.Sprintf("encode %d of a sequence (results read after the last call): %s", i, x.Desc)
+				viol = append(viol, x)
+			}
 		}
 	case "mercury.onchain.encode":
 		mn, mx := jBig(op["min"]), jBig(op["max"])
